@@ -12,6 +12,7 @@ import (
 	"context"
 	"encoding/json"
 	"fmt"
+	"strings"
 	"testing"
 	"time"
 
@@ -28,14 +29,15 @@ import (
 )
 
 type SrvCase struct {
-	Backend string `json:"backend"`
-	Start   string `json:"start"` // client-open | server-tunnel
-	End     string `json:"end"`   // still-waiting | bridge-close | ctx-cancel | sm-close | served-then-closed
-	Host    string `json:"host"`
-	Port    int    `json:"port"`
-	Seq     int    `json:"seq"`           // makes the tunnel id
-	Bystand bool   `json:"bystand"`       // a second waiting tunnel on another mapping must be unaffected by a bridge-close of the first
-	Dup     string `json:"dup,omitempty"` // while waiting: "", "replay-same-client" or "other-client-other-mapping" sends a second source-side open for the same tunnel id
+	Backend  string `json:"backend"`
+	Start    string `json:"start"` // client-open | server-tunnel
+	End      string `json:"end"`   // still-waiting | bridge-close | ctx-cancel | sm-close | served-then-closed
+	Host     string `json:"host"`
+	Port     int    `json:"port"`
+	Seq      int    `json:"seq"`                 // makes the tunnel id
+	Bystand  bool   `json:"bystand"`             // a second waiting tunnel on another mapping must be unaffected by a bridge-close of the first
+	RegFault bool   `json:"reg_fault,omitempty"` // node 1's store refuses the first write of the routing record (transient fault), the tunnel is ended at once
+	Dup      string `json:"dup,omitempty"`       // while waiting: "", "replay-same-client" or "other-client-other-mapping" sends a second source-side open for the same tunnel id
 }
 
 const endBound = 3 * time.Second
@@ -51,30 +53,72 @@ func genSrvCase(t *rapid.T) SrvCase {
 		Bystand: rapid.Bool().Draw(t, "bystand"),
 	}
 	c.Dup = rapid.SampledFrom([]string{"", "", "replay-same-client", "other-client-other-mapping"}).Draw(t, "dup")
+	if rapid.IntRange(0, 9).Draw(t, "regFault") == 0 {
+		c.RegFault, c.Dup, c.Bystand = true, "", false
+		if c.End == "served-then-closed" {
+			c.End = "bridge-close"
+		}
+	}
 	if c.Start == "server-tunnel" && c.End == "served-then-closed" {
 		c.End = "bridge-close" // the server-internal source has no client transport to finish a served tunnel with
 	}
 	return c
 }
 
-func srvStores(backend string) (node1, node2 storage.Storage) {
+// node 1's store as the server sees it: the real storage whose next write of a routing record can be refused once
+type srvFaultMem struct {
+	*memory.Storage
+	arm *faultArm
+}
+
+func (f srvFaultMem) Set(key string, value any, ttl time.Duration) error {
+	if f.arm.refuses(key) {
+		return fmt.Errorf("injected: transient storage error")
+	}
+	return f.Storage.Set(key, value, ttl)
+}
+
+type srvFaultHyb struct {
+	*hybrid.Storage
+	arm *faultArm
+}
+
+func (f srvFaultHyb) Set(key string, value any, ttl time.Duration) error {
+	if f.arm.refuses(key) {
+		return fmt.Errorf("injected: transient storage error")
+	}
+	return f.Storage.Set(key, value, ttl)
+}
+
+func (a *faultArm) refuses(key string) bool {
+	a.mu.Lock()
+	defer a.mu.Unlock()
+	if !a.armed || !strings.HasPrefix(key, "tunnox:tunnel_waiting:") {
+		return false
+	}
+	a.armed = false
+	a.hits++
+	return true
+}
+
+func srvStores(backend string, arm *faultArm) (node1, node2 storage.Storage) {
 	ctx := context.Background()
 	switch backend {
 	case "memory":
 		m := memory.New(ctx)
-		return m, m
+		return srvFaultMem{m, arm}, m
 	case "hybrid-memory":
 		h := hybrid.New(ctx, memory.New(ctx), nil, hybrid.DefaultConfig())
-		return h, h
+		return srvFaultHyb{h, arm}, h
 	case "redis":
 		redisA.mr.FlushAll()
-		return redisA.clients[0], redisA.clients[1]
+		return faultyRedis{redisA.clients[0], arm}, redisA.clients[1]
 	default:
 		redisB.mr.FlushAll()
-		mk := func(i int) storage.Storage {
+		mk := func(i int) *hybrid.Storage {
 			return hybrid.NewWithSharedCache(ctx, memory.New(ctx), noCloseRedis{redisB.clients[i]}, nil, hybrid.DefaultConfig())
 		}
-		return mk(0), mk(1)
+		return srvFaultHyb{mk(0), arm}, mk(1)
 	}
 }
 
@@ -117,7 +161,8 @@ func runSrvCase(c SrvCase) (*failure, bool) {
 		panic("C09 harness: cannot start miniredis: " + err.Error())
 	}
 	ctx := context.Background()
-	st1, st2 := srvStores(c.Backend)
+	arm := &faultArm{}
+	st1, st2 := srvStores(c.Backend, arm)
 	srv, err := miniserver.New(miniserver.Options{Storage: st1, NodeID: "node-1", RoutingTTL: 30 * time.Second, NoSecurityGate: true})
 	if err != nil {
 		panic("C09 harness: miniserver.New: " + err.Error())
@@ -232,9 +277,15 @@ func runSrvCase(c SrvCase) (*failure, bool) {
 		return nil
 	}
 
+	if c.RegFault {
+		arm.set()
+	}
 	o := open(mp, c.Start, c.Seq)
-	if f := waiting(o, "while waiting"); f != nil {
-		return f, true
+	refused := arm.take() > 0
+	if !refused {
+		if f := waiting(o, "while waiting"); f != nil {
+			return f, true
+		}
 	}
 	var by *opened
 	if c.Bystand {
@@ -292,6 +343,9 @@ func runSrvCase(c SrvCase) (*failure, bool) {
 	switch c.End {
 	case "still-waiting":
 		time.Sleep(20 * time.Millisecond)
+		if refused {
+			return nil, true // the registration was refused; whether and when the node publishes the record later is not promised
+		}
 		return waiting(o, "still waiting after 20ms"), true
 	case "bridge-close":
 		br := srv.SM.GetTunnelBridgeByMappingID(mp.ID, 0)
@@ -323,8 +377,20 @@ func runSrvCase(c SrvCase) (*failure, bool) {
 			dupConn.CloseByPeer() // a replayed open may have become the bridge's source transport
 		}
 	}
+	endedAt := time.Now()
 	if f := ended(o); f != nil {
 		return f, true
+	}
+	if refused {
+		// the tunnel ended within milliseconds of a refused registration: nothing the node does later on behalf of the
+		// dead tunnel (late retries of the registration) may make its id resolve again
+		time.Sleep(time.Until(endedAt.Add(1500 * time.Millisecond)))
+		for ni, tb := range tables {
+			if st, err := tb.LookupWaitingTunnel(ctx, o.tid); err == nil {
+				return &failure{fmt.Sprintf("C09/server/ended-tunnel-published-late/%s/%s/%s", c.End, c.Start, c.Backend),
+					fmt.Sprintf("the first registration of %s was refused by the store, the tunnel ended (%s) right away; %v later node-%d resolves the id to source node %q", o.tid, c.End, time.Since(endedAt).Round(time.Millisecond), ni+1, st.SourceNodeID)}, true
+			}
+		}
 	}
 	if by != nil {
 		if c.End == "bridge-close" || c.End == "served-then-closed" {
@@ -352,10 +418,13 @@ func checkSrv(t vkit.TB, c SrvCase) {
 		return
 	}
 	class := "server:" + c.Start + "/" + c.End
-	vkit.Case(class, c.End != "still-waiting", fmt.Sprintf("srv|%s|%s|%s|%s|%d|%v|%s", c.Backend, c.Start, c.End, c.Host, c.Port, c.Bystand, c.Dup))
+	vkit.Case(class, c.End != "still-waiting", fmt.Sprintf("srv|%s|%s|%s|%s|%d|%v|%s|%v", c.Backend, c.Start, c.End, c.Host, c.Port, c.Bystand, c.Dup, c.RegFault))
 	vkit.Class("server-backend:" + c.Backend)
 	if c.Dup != "" {
 		vkit.Class("server-dup:" + c.Dup)
+	}
+	if c.RegFault {
+		vkit.Class("server:first-registration-refused")
 	}
 	vkit.Sample(class, c)
 }
@@ -381,6 +450,10 @@ func TestServerTunnelMatrix(t *testing.T) {
 				}
 				seq += 2
 				checkSrv(t, SrvCase{Backend: be, Start: start, End: end, Host: "10.9.8.7", Port: 3306, Seq: seq, Bystand: end == "bridge-close"})
+			}
+			if start == "client-open" {
+				seq += 2
+				checkSrv(t, SrvCase{Backend: be, Start: start, End: "bridge-close", Host: "10.9.8.7", Port: 3306, Seq: seq, RegFault: true})
 			}
 		}
 	}
